@@ -1,2 +1,38 @@
-def safe_load(fileobj):
-    raise RuntimeError('yaml not available in harness')
+''' Stand-in for PyYAML (not installed in the sandbox): the JSON-compatible subset of YAML 1.2.
+
+`safe_load` accepts a text / bytes string or a file object whose content is a JSON document
+(flow mappings / sequences, double-quoted strings, numbers, true / false / null) - every such
+document is a YAML document with the same meaning. An empty document loads as None, as in PyYAML.
+`safe_dump` writes that subset. Anything else raises YAMLError: the harness only ever feeds files
+it wrote itself. '''
+import json
+
+
+class YAMLError(Exception):
+    pass
+
+
+def safe_load(stream):
+    text = stream.read() if hasattr(stream, 'read') else stream
+    if isinstance(text, bytes):
+        text = text.decode('utf-8')
+    if not text.strip():
+        return None
+    try:
+        return json.loads(text)
+    except ValueError as err:
+        raise YAMLError('harness yaml stub reads the JSON subset only: %s' % err)
+
+
+load = safe_load
+
+
+def safe_dump(data, stream=None, **_kw):
+    text = json.dumps(data, indent=1, sort_keys=True) + '\n'
+    if stream is None:
+        return text
+    stream.write(text)
+    return None
+
+
+dump = safe_dump
